@@ -95,7 +95,7 @@ fn seeds() -> Vec<Vec<u8>> {
     base.iter().map(|s| s.as_bytes().to_vec()).collect()
 }
 fn mutations(doc: &[u8]) -> Vec<Vec<u8>> {
-    let alpha: &[u8] = b" ,:\"[]{}\\0159.-eEtfnux\n";
+    let alpha: &[u8] = b" ,:\"[]{}\\0159.-eEtfnux\n\x0c\x0b\x00";
     let mut out = vec![doc.to_vec()];
     for i in 0..doc.len() {
         let mut d = doc.to_vec(); d.remove(i); out.push(d);
@@ -148,15 +148,31 @@ fn main() {
             let val: Result<sonic_rs::Value, _> = sonic_rs::from_str(txt);
             let it: Vec<_> = sonic_rs::to_array_iter(txt).collect();
             let ot: Vec<_> = sonic_rs::to_object_iter(txt).collect();
-            (lazy.map(|l| l.as_raw_str().to_string()).map_err(|e| (e.offset(), e.line(), e.column())), val.is_ok(), it, ot)
+            let verr = val.as_ref().err().map(|e| (e.offset(), e.line(), e.column()));
+            (lazy.map(|l| l.as_raw_str().to_string()).map_err(|e| (e.offset(), e.line(), e.column())), val.is_ok(), it, ot, verr)
         }));
-        let (lazy, val_ok, it, ot) = match r { Ok(x) => x, Err(_) => { if want("C01") { report("C01", format!("panic on input {}", show(d))) } else { continue } } };
+        let (lazy, val_ok, it, ot, verr) = match r { Ok(x) => x, Err(_) => { if want("C01") { report("C01", format!("panic on input {}", show(d))) } else { continue } } };
         // C02 / C14: validate-and-skip acceptance == RFC 8259; fully decoding accepts only well-formed text
         if (want("C02") || want("C14")) && lazy.is_ok() != ok { report(if want("C02") { "C02" } else { "C14" }, format!("from_str::<LazyValue>({}) is_ok={} but RFC 8259 says {}", show(d), lazy.is_ok(), ok)); }
         if want("C02") && val_ok && !ok { report("C02", format!("from_str::<Value>({}) accepted malformed text", show(d))); }
         if want("C08") && lazy.is_ok() { if let Ok(rn) = sonic_rs::from_str::<sonic_rs::RawNumber>(txt) { if number(rn.as_str().as_bytes(), 0) != Some(rn.as_str().len()) { report("C08", format!("RawNumber from {} holds {:?}: not a JSON number", show(d), rn.as_str())); } } }
         // C20: errors locate themselves
         if want("C20") { if let Err((off, l, c)) = &lazy { if *off > d.len() || (*l != 0 && (*l, *c) != line_col(d, *off)) { report("C20", format!("error for {} reports offset {} line {} column {}, expected line/column {:?}", show(d), off, l, c, line_col(d, *off))); } } }
+        if want("C20") { if let Some((off, l, c)) = verr { if off > d.len() { report("C20", format!("from_str::<Value>({}) error reports offset {} beyond the input length {}", show(d), off, d.len())); } let _ = (l, c); } }
+        if want("C02") && val_ok != ok && !ok { report("C02", format!("from_str::<Value>({}) accepted malformed text", show(d))); }
+        // C03: the embedded (copy-out) parse of a value equals the whole-input parse
+        if want("C03") && ok {
+            #[derive(serde::Deserialize)] struct W { v: sonic_rs::Value }
+            let wrapped = format!("{{\"v\":{}}}", txt);
+            let emb = catch_unwind(AssertUnwindSafe(|| sonic_rs::from_str::<W>(&wrapped).map(|w| sonic_rs::to_string(&w.v).unwrap())));
+            let whole = sonic_rs::from_str::<sonic_rs::Value>(txt).map(|v| sonic_rs::to_string(&v).unwrap());
+            match (emb, whole) {
+                (Err(_), _) => report("C03", format!("embedded parse of {} panicked", show(d))),
+                (Ok(Ok(a)), Ok(b)) if a != b => report("C03", format!("embedded parse of {} gives {} but whole-input parse gives {}", show(d), a, b)),
+                (Ok(Err(_)), Ok(_)) => report("C03", format!("embedded parse of well-formed {} failed", show(d))),
+                _ => {}
+            }
+        }
         // C12 / C14: checked iterators yield only well-formed items, and exactly the elements for well-formed arrays
         if want("C12") || want("C14") {
             let mut errs = 0;
